@@ -116,8 +116,8 @@ NextAbout(i, kinds) ==
     /\ NextIs(kinds) /\ "member" \in DOMAIN Trace[l]
     /\ (Trace[l].member = i \/ (Trace[l].member = 0 /\ Trace[l].node = Seat[i]))
 
-SortedOps(S) == FateM!SortedSeq(S)
-OpsNames(S) == [x \in 1..Cardinality(S) |-> Seat[SortedOps(S)[x]]]
+\* DkgFate!GroupOperators (resolveGroupOperators): the selected operators of the operating seats, in seat order
+OpsNames(S) == FateM!GroupOperators(Seat, S)
 
 ---------------------------------------------------------------------------
 \* chain time follows the block numbers of the events
